@@ -245,6 +245,20 @@ fn run1<T: Flt>(src: &mut Src, obs: &mut Obs) -> Result<(), Fail> {
                 qdesc.push(format!("bad {} at {pos}/{len}", cls.name()));
             }
         }
+        // batches in ascending / descending order (NaN last) besides the order as generated
+        if len >= 2 && !axis_prefix {
+            match src.below(6) {
+                0 => {
+                    qs.sort_by(|a, b| a.partial_cmp(b).unwrap_or_else(|| a.is_nan().cmp(&b.is_nan())));
+                    obs.class("batch:ascending");
+                }
+                1 => {
+                    qs.sort_by(|a, b| b.partial_cmp(a).unwrap_or_else(|| a.is_nan().cmp(&b.is_nan())));
+                    obs.class("batch:descending");
+                }
+                _ => {}
+            }
+        }
         let expect = qs.iter().all(|&q| in_closed::<T>(&c.x, q));
         let bad_count = qs.iter().filter(|&&q| !in_closed::<T>(&c.x, q)).count();
         one_bad = bad_count == 1;
